@@ -81,6 +81,10 @@ impl Add<SystemTime> for IggyTimestamp {
 
 impl Default for IggyTimestamp {
     fn default() -> Self {
+        #[cfg(feature = "iggy_verif")]
+        if let Some(frozen) = crate::verif::frozen_now_micros() {
+            return IggyTimestamp::from(frozen);
+        }
         Self(SystemTime::now())
     }
 }
